@@ -7,6 +7,8 @@
 (*   redis store  : one ticket cookie; the session lives under the ticket's key    *)
 EXTENDS Naturals, Sequences, FiniteSets, TLC, Json, CSV, Str
 
+\* DomainCfgs: configuration variants - cookie domains (none / dotted / two) or, without domains, a backend-logout URL whose endpoint
+\* answers 200 / 500 (backend_ok / backend_fail)
 CONSTANTS MaxReqs, Stores, DomainCfgs, DeleteKey   \* DeleteKey = FALSE: named deviation "cookie cleared, key kept" (selftest)
 
 Vocab == [ atoms |-> [ none |-> "" ] ]
